@@ -318,12 +318,13 @@ def run_prefix_shard(args):
 
 
 def run_fields_shard(args):
-    exe, scratch, maxoff, files = args
+    exe, scratch, maxoff, files = args[:4]
+    mode = args[4] if len(args) > 4 else "fields"
     n, fails = 0, []
     for f in files:
         start = 0
         while start <= maxoff:
-            rc, out, err = vlib.run_exe(exe, ["0", str(start), str(maxoff), scratch, "fields", f], timeout=1800,
+            rc, out, err = vlib.run_exe(exe, ["0", str(start), str(maxoff), scratch, mode, f], timeout=1800,
                                         env=fill_env(FILL_MAIN))
             text = out.decode("latin-1")
             flds = re.findall(r"^field (\d+) (\d) (\d) (\d+)$", text, re.M)
@@ -506,7 +507,10 @@ def run(ck):
     fexe = vlib.build_harness("c01_fuzz", ["c01_fuzz.c"], variant="asan")
     allf = sorted(f for f in set(files) if os.path.getsize(f) <= 400000)
     reps, treps = {}, {}
-    for chunk in vlib.pmap(run_types_shard, [(fexe, scratch, allf[i::16]) for i in range(16)]):
+    typed = [pt for chunk in vlib.pmap(run_types_shard, [(fexe, scratch, allf[i::16]) for i in range(16)]) for pt in chunk]
+    # representatives: genuine modules before the repository's fuzz-regression files (data/f: mostly refused early)
+    typed.sort(key=lambda pt: ("/data/f/" in pt[0], "/syn-" in pt[0], pt[0]))
+    for chunk in (typed,):
         for path, typ in chunk:
             reps.setdefault(typ, [])
             treps.setdefault(typ, [])
@@ -557,6 +561,22 @@ def run(ck):
                              os.path.basename(f["file"]), 8 * f["field"][1], "big" if f["field"][2] else "little", f["field"][0],
                              f["field"][3], sig))
     ck.note("field_inflations_checked", nfields)
+    # ---- every 32-bit field near the start of one module per format turned negative / huge -------------------
+    f32files = [p for p in repfiles if os.path.getsize(p) <= (65536 if quick else 400000)]
+    maxoff32 = 520 if quick else 1400
+    nf32 = 0
+    for (n, fails) in vlib.pmap(run_fields_shard, [(fexe, scratch, maxoff32, f32files[i::32], "fields32") for i in range(32)]):
+        nf32 += n
+        for f in fails:
+            sig = "timeout" if f["rc"] in (-999, 142, -14) else vlib.sanitizer_signature(f["stderr"])
+            ck.violation("asan:fields32:%s" % sig,
+                         {"harness": "c01_fuzz fields32", "file": f["file"], "field": f["field"], "stderr": f["stderr"][-2500:],
+                          "args": ["0", str(f["field"][0]), str(f["field"][0]), scratch, "fields32", f["file"]]},
+                         "%s with the 32-bit %s-endian field at offset %d set to extreme value #%d: %s" % (
+                             os.path.basename(f["file"]), "big" if f["field"][2] else "little", f["field"][0], f["field"][3], sig))
+    ck.note("field32_extremes_checked", nf32)
+    ck.note("field32_files", sorted(os.path.basename(p) for p in f32files))
+    ck.bump("evaluations_extra", nf32)
     ck.bump("evaluations_extra", nprefix)
     ck.note("mutation_and_entry_distribution", dict(sorted(kinds.items())[:60]))
     ck.note("fuzz_cases_completed", ncases)
